@@ -382,9 +382,10 @@ def queries(tier):
                      timeout=700 if not T else 1000, per_path_timeout=60, expect_cover=["preempted"], family="stmt",
                      config={"t0": k0, "t1": k1, "statements": n0}))
     combos = [("gen", "gen", None), ("gen", "str", None), ("str", "raise", None), ("gen", "crash", None), ("raise", "404", None),
-              ("badbody", "badbody", None), ("str", "badbody", None), ("gen", "gen", "str"), ("chunkbody", "chunkbody", None)]
+              ("badbody", "badbody", None), ("str", "badbody", None), ("gen", "gen", "str")]
     if T:
-        combos += [(a, b, None) for a in KINDS for b in KINDS if (a, b, None) not in combos]
+        # (chunked bodies with symbolic request text cost > 700 CPU s per query: that kind is in the stmt/ family only)
+        combos += [(a, b, None) for a in KINDS for b in KINDS if (a, b, None) not in combos and "chunkbody" not in (a, b)]
         combos += [("gen", "raise", "crash"), ("str", "gen", "gen"), ("crash", "gen", "404")]
     for k0, k1, k2 in combos:
         out.append(Q("threads/%s-%s%s" % (k0, k1, "-" + k2 if k2 else ""), make(k0, k1, k2),
